@@ -71,6 +71,7 @@ fn main() {
         "c01w" => c01::worker(&args),
         "c02" => c02::run(&args),
         "c02t" => c02::run_traces(&args),
+        "c03t" => c03::run_traces(&args),
         "c03" => c03::run(&args),
         "c07" => c07::run(&args),
         "c07t" => c07::run_traces(&args),
